@@ -133,7 +133,13 @@ def _write(w, op):
     if k == "byte":
         w.add_byte(op[1])
     elif k == "bytes":
-        w.add_bytes(bytes.fromhex(op[1]))
+        # the caller's buffer is only lent for the duration of the call: hand over a mutable
+        # bytearray and scribble over it afterwards - the written value is what it held at call time
+        buf = bytearray.fromhex(op[1])
+        w.add_bytes(buf)
+        for i in range(len(buf)):
+            buf[i] ^= 0x5A
+        buf.extend(b"\xff\x00\xfe")
     elif k == "char":
         w.add_char(op[1])
     elif k == "short":
